@@ -27,6 +27,26 @@ struct FaultRun {
     /// total storage operations issued (dry run)
     total_ops: u64,
     k0: u64,
+    /// storage-operation counter at the start of every call (dry run)
+    call_starts: Vec<u64>,
+}
+
+/// Short histories around one batch of hundreds of blocks whose oplog entry stays just below (830)
+/// or reaches (900, 1000) the oplog's 64 KiB budget, so that the call flushes out of turn.
+pub fn over_budget_history_strategy() -> impl Strategy<Value = Vec<Op>> {
+    let small = || {
+        prop_oneof![
+            4 => small_blk_strategy().prop_map(Op::Append),
+            2 => prop::collection::vec(small_blk_strategy(), 0..4).prop_map(Op::Batch),
+            2 => clear_strategy(),
+            1 => Just(Op::Reopen),
+        ]
+    };
+    (prop::collection::vec(small(), 0..4), prop_oneof![Just(830u32), Just(900), Just(1000), Just(1900)], prop::collection::vec(small(), 0..3)).prop_map(|(mut a, big, mut b)| {
+        a.push(Op::Big(big));
+        a.append(&mut b);
+        a
+    })
 }
 
 /// Run the history with operation `fault_at` failing (or none when None).
@@ -44,7 +64,9 @@ fn run_once(ops: &[Op], fault_at: Option<u64>, local: &mut Local) -> Result<Faul
 fn drive(disk: &Disk, mut sim: WSim<Disk>, ops: &[Op], fault_at: Option<u64>, k0: u64, local: &mut Local) -> Result<FaultRun, Failure> {
     let mut unflushed = 0u32;
     let mut reopen_with_unflushed = false;
+    let mut call_starts = vec![];
     for (ci, op) in ops.iter().enumerate() {
+        call_starts.push(disk.ops());
         let before: ListModel = sim.model.clone();
         let jb = disk.journal_len();
         let muts_before = disk.muts();
@@ -86,7 +108,8 @@ fn drive(disk: &Disk, mut sim: WSim<Disk>, ops: &[Op], fault_at: Option<u64>, k0
                 Err(p) => return Err(panic_failure(&format!("{what}: reopening afterwards"), &p)),
             };
             let upto = before.len().max(after_sim_model.len()) + 3;
-            let obs = hc::observe(&mut core, upto, false).map_err(|p| panic_failure(&format!("{what}: observing after reopen"), &p))?;
+            let differ = crate::crash::differing_indices(&before, &after_sim_model);
+            let obs = hc::observe_with(&mut core, upto, false, &differ).map_err(|p| panic_failure(&format!("{what}: observing after reopen"), &p))?;
             let d1 = obs_vs_model(&obs, &before, false);
             let d2 = obs_vs_model(&obs, &after_sim_model, false);
             let model = match (d1, d2) {
@@ -105,7 +128,7 @@ fn drive(disk: &Disk, mut sim: WSim<Disk>, ops: &[Op], fault_at: Option<u64>, k0
                 s2.apply(&sop).map_err(|f| Failure::new(format!("after-fault:{}", f.kind), format!("{what}: usability suffix: {}", f.detail)))?;
             }
             let _ = jb;
-            return Ok(FaultRun { total_ops: disk.ops(), k0 });
+            return Ok(FaultRun { total_ops: disk.ops(), k0, call_starts: vec![] });
         }
         // no fault in this call: normal model check (no extra observation: op numbering must match the dry run)
         sim.check_and_advance(op, &out).map_err(|f| Failure::new(f.kind, format!("fault at storage op {fault_at:?}: call {ci}: {}", f.detail)))?;
@@ -119,7 +142,7 @@ fn drive(disk: &Disk, mut sim: WSim<Disk>, ops: &[Op], fault_at: Option<u64>, k0
             }
         }
     }
-    Ok(FaultRun { total_ops: disk.ops(), k0 })
+    Ok(FaultRun { total_ops: disk.ops(), k0, call_starts })
 }
 
 
@@ -181,7 +204,7 @@ fn run_after_crash_once(files: &crate::backend::Files, model: &ListModel, follow
         for sop in writer_suffix() {
             s2.apply(&sop).map_err(|f| Failure::new(format!("after-fault:{}", f.kind), format!("{what}: usability suffix: {}", f.detail)))?;
         }
-        return Ok(FaultRun { total_ops: disk.ops(), k0 });
+        return Ok(FaultRun { total_ops: disk.ops(), k0, call_starts: vec![] });
     }
     let core = match opened {
         Ok(Ok(c)) => c,
@@ -228,7 +251,8 @@ pub fn test_after_crash(c: &AfterCrashCase, local: &mut Local) -> Check {
         }
     };
     let upto = cands.iter().map(|m| m.len()).max().unwrap_or(0) + 3;
-    let obs = hc::observe(&mut core, upto, false).map_err(|p| panic_failure("observing the crashed storage", &p))?;
+    let differ = crate::crash::differing_indices(cands[0], cands[1]);
+    let obs = hc::observe_with(&mut core, upto, false, &differ).map_err(|p| panic_failure("observing the crashed storage", &p))?;
     let Some(model) = cands.iter().find(|m| obs_vs_model(&obs, m, false).is_none()) else {
         local.class("after_crash:unexplained_start_skipped");
         return Ok(());
@@ -332,7 +356,22 @@ pub fn test_history(ops: &[Op], local: &mut Local) -> Check {
     let dry = run_once(ops, None, local)?;
     local.class("histories");
     local.evals = local.evals.saturating_sub(1);
+    // histories with a batch of hundreds of blocks issue thousands of storage operations (one read
+    // per tree node): every operation of the big call itself and of the call after it fails in
+    // turn, of the others every operation near a call boundary and every 23rd in between
+    let heavy = dry.total_ops - dry.k0 > 400;
+    let big_call = ops.iter().position(|o| matches!(o, Op::Big(_)));
     for k in dry.k0..dry.total_ops {
+        if heavy {
+            let ci = dry.call_starts.iter().rposition(|s| *s <= k).unwrap_or(0);
+            let start = dry.call_starts[ci];
+            let end = dry.call_starts.get(ci + 1).copied().unwrap_or(dry.total_ops);
+            let in_big = big_call.map(|b| ci == b || ci == b + 1).unwrap_or(false) && end - start <= 400;
+            if !in_big && k - start > 12 && end - k > 12 && k % 23 != 0 {
+                local.class("fault_positions_skipped_in_heavy_histories");
+                continue;
+            }
+        }
         local.evals += 1;
         local.class("fault_runs");
         run_once(ops, Some(k), local)?;
@@ -343,7 +382,9 @@ pub fn test_history(ops: &[Op], local: &mut Local) -> Check {
 pub fn run(ctx: &Ctx) {
     ctx.set_rule(
         "evaluations = (history, k) fault runs: a fault-free dry run counts the N storage operations the history issues after creation \
-         (reads and length queries included); then for EVERY k the history is re-run with operation k returning an I/O error once. \
+         (reads and length queries included); then for EVERY k the history is re-run with operation k returning an I/O error once (histories around a batch of 830-1900 blocks, \
+         whose log entry reaches the oplog's 64 KiB budget, issue thousands of operations: all operations of the big call and the one after it, \
+         those near call boundaries and every 23rd elsewhere). \
          Oracle: the API call issuing operation k returns Err (no Ok, no panic, no hang); the instance is dropped; a fault-free reopen \
          succeeds and shows the model before or after that call with all earlier calls intact; the usability suffix passes. \
          Two further stages: (faults-after-crash) the history is cut short at a generated journal prefix (optionally with the next \
@@ -359,10 +400,14 @@ pub fn run(ctx: &Ctx) {
     let n = seq_count(8, l);
     indexed_stage(ctx, "exhaustive", n, |i| seq_at(8, i).into_iter().map(alphabet_op).collect::<Vec<Op>>(), |ops, local| test_history(ops, local));
     ctx.extra("exhaustive_stage", json!({"alphabet": ALPHABET, "max_len": l, "sequences": n, "exhaustive": true}));
-    random_stage(ctx, "random", ctx.tier.pick(600, 50_000), || fault_history_strategy(20), |ops: &Vec<Op>, local| test_history(ops, local));
-    crate::props::repl_crash::run_replica_fault_stage(ctx, ctx.tier.pick(200, 16_000));
-    random_stage(ctx, "faults-after-crash", ctx.tier.pick(1_500, 40_000), after_crash_strategy, |c: &AfterCrashCase, local| test_after_crash(c, local));
-    random_stage(ctx, "overwrite-under-faults", ctx.tier.pick(500, 10_000), overwrite_strategy, |c: &OverwriteCase, local| test_overwrite(c, local));
+    random_stage(ctx, "random", ctx.tier.pick(3_000, 50_000), || fault_history_strategy(20), |ops: &Vec<Op>, local| test_history(ops, local));
+    random_stage(ctx, "over-budget-batches", ctx.tier.pick(48, 1_500), over_budget_history_strategy, |ops: &Vec<Op>, local| {
+        local.class("histories_with_a_batch_over_the_oplog_budget");
+        test_history(ops, local)
+    });
+    crate::props::repl_crash::run_replica_fault_stage(ctx, ctx.tier.pick(1_000, 16_000));
+    random_stage(ctx, "faults-after-crash", ctx.tier.pick(6_000, 40_000), after_crash_strategy, |c: &AfterCrashCase, local| test_after_crash(c, local));
+    random_stage(ctx, "overwrite-under-faults", ctx.tier.pick(2_000, 10_000), overwrite_strategy, |c: &OverwriteCase, local| test_overwrite(c, local));
 }
 
 pub fn replay(case: &Value) -> Check {
